@@ -405,6 +405,7 @@ impl<'a> Machine<'a> {
             }
             K::Read(targets) => {
                 for t in targets {
+                    let t = &self.freeze(fx, t)?;
                     let item = self.data.get(self.data_pos).cloned().ok_or(RErr::Code(4))?;
                     self.data_pos += 1;
                     let old = self.shape_of(fx, t)?;
@@ -427,6 +428,7 @@ impl<'a> Machine<'a> {
             }
             K::Input(h, targets) => {
                 for t in targets {
+                    let t = &self.freeze(fx, t)?;
                     let field = self.read_field(*h)?;
                     let old = self.shape_of(fx, t)?;
                     let v = match old {
